@@ -4,10 +4,6 @@ import ZapVerif.Proofs.Pools
 namespace ZapVerif.Pools
 open ZapVerif ZapVerif.Json ZapVerif.Enc ZapVerif.Entry
 
-/-- the buffers in `owned` are allocated, pairwise distinct and not in the pool; the pool has no duplicates -/
-def Owns (h : H) (owned : List Nat) : Prop :=
-  (h.bufPool ++ owned).Nodup ∧ ∀ x ∈ h.bufPool ++ owned, x < h.next
-
 theorem Owns.poolOK {h : H} {owned : List Nat} (o : Owns h owned) : PoolOK h := by
   obtain ⟨h1, h2⟩ := o
   simp only [List.nodup_append, List.mem_append] at h1 h2
